@@ -1065,7 +1065,8 @@ func (dc *DirectConnection) readResultRows(result *mysql.Result, isBinary bool, 
 		}
 
 		result.RowDatas = append(result.RowDatas, data)
-		if maxRows > 0 && len(result.RowDatas) >= maxRows {
+		// the limit is the largest result that is still delivered: only a row beyond it is an error
+		if maxRows > 0 && len(result.RowDatas) > maxRows {
 			if err := dc.drainResults(); err != nil {
 				dc.pkgErr = fmt.Errorf("%v", sqlerr.ErrInvalidPacket)
 				return fmt.Errorf("%v %d, drain error: %v", sqlerr.ErrRowsLimitExceeded, maxRows, err)
